@@ -113,4 +113,111 @@ theorem Ranked.sups {d : Dict} {rank : Nat → Nat} (h : Ranked d rank) : ∀ n 
     have := h.1 e (List.mem_of_find?_eq_some hf) s hs
     rw [hn] at this; exact this
 
+
+/-! ### the attribute layout of a loaded instance has one attribute per descriptor -/
+
+theorem foldl_nodup (d : Dict) (f : Nat) (ih : ∀ seen n, seen.Nodup → (attrOrderAux d f seen n).Nodup) :
+    ∀ (l : List Nat) (seen : List Nat), seen.Nodup → (l.foldl (fun s sp => attrOrderAux d f s sp) seen).Nodup := by
+  intro l
+  induction l with
+  | nil => intro seen h; exact h
+  | cons a t iht => intro seen h; exact iht _ (ih seen a h)
+
+theorem attrOrderAux_nodup (d : Dict) : ∀ (f : Nat) (seen : List Nat) (n : Nat), seen.Nodup → (attrOrderAux d f seen n).Nodup := by
+  intro f
+  induction f with
+  | zero => intro seen n h; exact h
+  | succ f ih =>
+    intro seen n h
+    simp only [attrOrderAux]
+    have h' := foldl_nodup d f ih (supsOf d n) seen h
+    split
+    · exact h'
+    · rename_i hc
+      rw [List.nodup_append]
+      refine ⟨h', by simp, ?_⟩
+      intro a ha b hb
+      have hb' : b = n := by simpa using hb
+      intro e
+      rw [hb'] at e
+      rw [e] at ha
+      exact hc (by simpa using ha)
+
+theorem attrOrder_nodup (d : Dict) (n : Nat) : (attrOrder d n).Nodup :=
+  attrOrderAux_nodup d _ [] n List.nodup_nil
+
+theorem nodup_map_pair (e : Nat) : ∀ (l : List Nat), l.Nodup → (l.map (fun a => (e, a))).Nodup := by
+  intro l
+  induction l with
+  | nil => intro _; simp
+  | cons a t ih =>
+    intro h
+    rw [List.nodup_cons] at h
+    simp only [List.map_cons, List.nodup_cons]
+    refine ⟨?_, ih h.2⟩
+    intro hm
+    rw [List.mem_map] at hm
+    obtain ⟨b, hb, hbe⟩ := hm
+    injection hbe with _ h2
+    rw [h2] at hb; exact h.1 hb
+
+theorem nodup_flatMap_pairs (g : Nat → List Nat) (hg : ∀ e, (g e).Nodup) :
+    ∀ (l : List Nat), l.Nodup → (l.flatMap (fun e => (g e).map (fun a => (e, a)))).Nodup := by
+  intro l
+  induction l with
+  | nil => intro _; simp
+  | cons e t ih =>
+    intro hl
+    rw [List.nodup_cons] at hl
+    simp only [List.flatMap_cons]
+    rw [List.nodup_append]
+    refine ⟨?_, ih hl.2, ?_⟩
+    · exact nodup_map_pair e (g e) (hg e)
+    · intro x hx y hy hxy
+      rw [List.mem_map] at hx
+      obtain ⟨a, _, rfl⟩ := hx
+      rw [List.mem_flatMap] at hy
+      obtain ⟨e', he', hy'⟩ := hy
+      rw [List.mem_map] at hy'
+      obtain ⟨b, _, rfl⟩ := hy'
+      injection hxy with h1 _
+      rw [h1] at hl
+      exact hl.1 he'
+
+theorem zipAttrs_keys (rd : List Nat) : ∀ (l : List (Nat × Nat × Bool)) (v : List (List Nat)),
+    (zipAttrs rd l v).map (fun a => (a.owner, a.name)) = l.map (fun t => (t.1, t.2.1)) := by
+  intro l
+  induction l with
+  | nil => intro v; simp [zipAttrs]
+  | cons t ts ih =>
+    intro v
+    obtain ⟨o, a, g⟩ := t
+    cases v with
+    | nil => simp [zipAttrs, ih]
+    | cons x xs => simp [zipAttrs, ih]
+
+theorem eq_of_nodup_keys {α β} (key : α → β) : ∀ (l : List α), (l.map key).Nodup → ∀ a ∈ l, ∀ b ∈ l, key a = key b → a = b := by
+  intro l
+  induction l with
+  | nil => intro _ a ha; cases ha
+  | cons h t ih =>
+    intro hd a ha b hb hk
+    simp only [List.map_cons, List.nodup_cons] at hd
+    rcases List.mem_cons.mp ha with ha1 | ha1 <;> rcases List.mem_cons.mp hb with hb1 | hb1
+    · rw [ha1, hb1]
+    · rw [ha1] at hk
+      exact absurd (List.mem_map.mpr ⟨b, hb1, hk.symm⟩ : key h ∈ t.map key) hd.1
+    · rw [hb1] at hk
+      exact absurd (List.mem_map.mpr ⟨a, ha1, hk⟩ : key h ∈ t.map key) hd.1
+    · exact ih hd.2 a ha1 b hb1 hk
+
+/-- attribute names are unique within each entity declaration -/
+def AttrNamesUnique (d : Dict) : Prop := ∀ e ∈ d, (e.attrs.map (·.1)).Nodup
+
+theorem attrsOf_nodup (d : Dict) (h : AttrNamesUnique d) (n : Nat) : ((attrsOf d n).map (·.1)).Nodup := by
+  unfold attrsOf Dict.ent
+  cases hf : d.find? (fun e => e.name == n) with
+  | none => simp
+  | some e => exact h e (List.mem_of_find?_eq_some hf)
+
 end StepModel.LazyRefs
